@@ -201,7 +201,7 @@ theorem draw_phases (F : Facts) (hF : F.cursorGuard = true) (cfg : Cfg) (hgap : 
       cs2.length = cs1.length ∧
       (s3.wantsCursor = true → s2.top ≤ s2.cursor ∧ cs1.length ≤ s2.cursor - s2.top) ∧
       (cs2 = cs1 ∨ ∃ (adj : Int) (m : Nat) (c' : Child),
-          cs2 = cs1.map (fun c => { c with row := c.row + adj }) ∧ cs2[m]? = some c' ∧
+          adj ≤ 0 ∧ cs2 = cs1.map (fun c => { c with row := c.row + adj }) ∧ cs2[m]? = some c' ∧
           c'.row + (c'.height : Int) = H) ∧
       s2.top ≤ s.top ∧ s2.cursor = s.cursor ∧ s2.pending = 0 ∧ (cs0 = [] → s2 = (prologue s).2) ∧
       draw F cfg hs s W H = .ok ({ s3 with top := (retop cs2 0 (s3.top, s3.offset)).1,
@@ -263,7 +263,7 @@ theorem draw_phases (F : Facts) (hF : F.cursorGuard = true) (cfg : Cfg) (hgap : 
       cs2.length = cs1.length ∧
       (s3.wantsCursor = true → s2.top ≤ s2.cursor ∧ cs1.length ≤ s2.cursor - s2.top) ∧
       (cs2 = cs1 ∨ ∃ (adj : Int) (m : Nat) (c' : Child),
-          cs2 = cs1.map (fun c => { c with row := c.row + adj }) ∧ cs2[m]? = some c' ∧
+          adj ≤ 0 ∧ cs2 = cs1.map (fun c => { c with row := c.row + adj }) ∧ cs2[m]? = some c' ∧
           c'.row + (c'.height : Int) = H) := by
     unfold reveal
     by_cases hw : s2.wantsCursor = true
@@ -275,8 +275,9 @@ theorem draw_phases (F : Facts) (hF : F.cursorGuard = true) (cfg : Cfg) (hgap : 
       · rw [e]
         simp only []
         split
-        · refine ⟨_, _, rfl, contig_shift _ dd.1, heights_shift _ dd.2, ?_, rfl, rfl, rfl, rfl, by simp, (fun h => by cases h),
-            Or.inr ⟨_, s2.cursor - s2.top, { c with row := c.row + ((H : Int) - (c.row + (c.height : Int))) }, rfl, ?_, ?_⟩⟩
+        · rename_i hbr
+          refine ⟨_, _, rfl, contig_shift _ dd.1, heights_shift _ dd.2, ?_, rfl, rfl, rfl, rfl, by simp, (fun h => by cases h),
+            Or.inr ⟨_, s2.cursor - s2.top, { c with row := c.row + ((H : Int) - (c.row + (c.height : Int))) }, by omega, rfl, ?_, ?_⟩⟩
           rotate_left
           · rw [List.getElem?_map, hcg]; rfl
           · show c.row + ((H : Int) - (c.row + (c.height : Int))) + (c.height : Int) = H; omega
@@ -492,5 +493,262 @@ theorem insertLoop_exact (hs : List Nat) : ∀ (fuel top : Nat) (ah : Int) (acc 
       have hu := usub_one h0 hU
       rw [hu]
       exact ih (top - 1) (ah - (hs[top] : Int)) _ (by omega) (by omega) (by omega) hah
+
+/-- What the repaired `insertChildren` + `Children[len-1]` leave behind on an upward scroll. -/
+theorem scrollUp_exact (hs : List Nat) (s1 : St) (ah1 ah2 : Int) (s2 : St) (cs0 : List Child)
+    (he : scrollUp true hs s1 ah1 = .ok (ah2, s2, cs0)) (hU : s1.top < U) :
+    (¬ ah1 > 0 → cs0 = [] ∧ s2 = s1) ∧
+    (ah1 > 0 → s1.top ≠ 0 → s1.top < hs.length →
+      ∃ f, cs0.head? = some f ∧ f.idx = s2.top ∧ f.row ≤ 0 ∧
+        (s2.offset = 0 ∨ (s2.offset < 0 ∧ f.row = s2.offset ∧ 0 < f.row + (f.height : Int)))) := by
+  unfold scrollUp at he
+  split at he
+  · rename_i hpos
+    refine ⟨fun h => absurd hpos h, fun _ h0 hn => ?_⟩
+    have hu := usub_one h0 hU
+    obtain ⟨h, e1, e2, e3⟩ := insertLoop_exact hs s1.top (s1.top - 1) ah1 [] (by omega) (by omega) (by omega) hpos
+    simp only [] at he
+    split at he
+    · cases he
+    · cases he
+      simp only []
+      unfold insertChildren
+      rw [hu]
+      simp only []
+      split
+      · rename_i hre
+        -- restacked from row 0
+        cases hcs : (insertLoop true hs s1.top (s1.top - 1) ah1 []).2.2 with
+        | nil => rw [hcs] at e1; cases e1
+        | cons a rest =>
+          rw [hcs] at e1
+          simp only [List.head?_cons, Option.some.injEq] at e1
+          refine ⟨{ a with row := 0 }, by simp [restack], ?_, Int.le_refl 0, Or.inl rfl⟩
+          rw [e1]
+      · rename_i hre
+        refine ⟨_, e1, rfl, ?_, ?_⟩
+        · show (insertLoop true hs s1.top (s1.top - 1) ah1 []).2.1 ≤ 0
+          rcases e3 with h' | h'
+          · exact h'
+          · have : ¬ ((insertLoop true hs s1.top (s1.top - 1) ah1 []).2.1 > 0) := fun hp => hre ⟨h', hp⟩
+            omega
+        · show (insertLoop true hs s1.top (s1.top - 1) ah1 []).2.1 = 0 ∨ _
+          have hle : (insertLoop true hs s1.top (s1.top - 1) ah1 []).2.1 ≤ 0 := by
+            rcases e3 with h' | h'
+            · exact h'
+            · have : ¬ ((insertLoop true hs s1.top (s1.top - 1) ah1 []).2.1 > 0) := fun hp => hre ⟨h', hp⟩
+              omega
+          by_cases hz : (insertLoop true hs s1.top (s1.top - 1) ah1 []).2.1 = 0
+          · exact Or.inl hz
+          · exact Or.inr ⟨(by show (insertLoop true hs s1.top (s1.top - 1) ah1 []).2.1 < 0; omega), rfl, e2⟩
+  · rename_i hn
+    cases he
+    exact ⟨fun _ => ⟨rfl, rfl⟩, fun h => absurd h hn⟩
+
+/-- The invariant with the scroll offset: it is never negative and lies within the top item. -/
+structure Inv4 (hs : List Nat) (s : St) : Prop where
+  inv3 : Inv3 hs s
+  off_nonneg : 0 ≤ s.offset
+  off_in : s.offset = 0 ∨ ∃ ht, hs[s.top]? = some ht ∧ s.offset < (ht : Int)
+
+theorem prologue_off (s : St) : (prologue s).2.offset = 0 ∨ (prologue s).2.offset = s.offset := by
+  unfold prologue; simp only []; split
+  · exact Or.inl rfl
+  · exact Or.inr rfl
+
+theorem head?_getElem? {α} (l : List α) : l.head? = l[0]? := by cases l <;> rfl
+
+/-- `Draw` re-establishes the settled scroll state (gap 0, both repairs present, viewport ≥ 1 row). -/
+theorem draw_inv4 (F : Facts) (hF : F.cursorGuard = true) (hS : F.insertStops = true)
+    (cfg : Cfg) (hgap : cfg.gap = 0) (hs : List Nat) (hlen : hs.length < 2 ^ 63) (s : St) (W H : Nat)
+    (hW : W ≠ 65535) (hH : H ≠ 65535) (hH1 : 1 ≤ H) (hi : Inv4 hs s) :
+    ∃ s' cs, draw F cfg hs s W H = .ok (s', cs) ∧ Inv4 hs s' := by
+  obtain ⟨ah2, s2, cs0, cs1, cs2, s3, hsu, hcs1, dd1, dd2, hhead1, hrv, c2, h2, hd2, t3, o3, cu3, pe3, len2, w3, sh3,
+    htop2, hcur, hpend, st3, hdraw⟩ := draw_phases F hF cfg hgap hs hlen s W H hW hH hi.inv3
+  obtain ⟨s', cs, he, hi3⟩ := draw_inv3 F hF cfg hgap hs hlen s W H hW hH hi.inv3
+  rw [hdraw] at he
+  cases he
+  suffices key : 0 ≤ (retop cs2 0 (s3.top, s3.offset)).2 ∧
+      ((retop cs2 0 (s3.top, s3.offset)).2 = 0 ∨
+        ∃ ht, hs[(retop cs2 0 (s3.top, s3.offset)).1]? = some ht ∧ (retop cs2 0 (s3.top, s3.offset)).2 < (ht : Int)) from
+    ⟨_, cs2, hdraw, hi3, key.1, key.2⟩
+  obtain ⟨p1, p2, p3, p4⟩ := prologue_spec s
+  have htopU : (prologue s).2.top < U := by
+    rw [p1]; rcases hi.inv3.top_ok with h | h
+    · rw [h]; unfold U; omega
+    · unfold U; omega
+  rw [hS] at hsu
+  obtain ⟨x1, x2⟩ := scrollUp_exact hs _ _ ah2 s2 cs0 hsu htopU
+  -- head of cs1 / cs2 versus head of cs0
+  have hmaphead : ∀ f, cs2.head? = some f → ∃ g, cs1.head? = some g ∧ f.idx = g.idx ∧ f.height = g.height ∧ f.row ≤ g.row := by
+    intro f hf
+    rcases sh3 with e | ⟨adj, m, c', hadj, e, _, _⟩
+    · rw [e] at hf; exact ⟨f, hf, rfl, rfl, Int.le_refl _⟩
+    · rw [e, List.head?_map] at hf
+      cases hh : cs1.head? with
+      | none => rw [hh] at hf; cases hf
+      | some g =>
+        rw [hh] at hf; simp only [Option.map_some, Option.some.injEq] at hf
+        exact ⟨g, rfl, by rw [← hf], by rw [← hf], by rw [← hf]; show g.row + adj ≤ g.row; omega⟩
+  -- the inserted head (when there was an upward scroll)
+  have hins : cs0 ≠ [] → ∃ f0, cs0.head? = some f0 ∧ cs1.head? = some f0 ∧ f0.idx = s2.top ∧ f0.row ≤ 0 ∧
+      (s2.offset = 0 ∨ (s2.offset < 0 ∧ f0.row = s2.offset ∧ 0 < f0.row + (f0.height : Int))) := by
+    intro hne
+    have hpos : (prologue s).1 > 0 := by
+      by_cases h : (prologue s).1 > 0
+      · exact h
+      · exact absurd (x1 h).1 hne
+    have ht0 := (p4 hpos).1
+    have htn : (prologue s).2.top < hs.length := by
+      rw [p1]; rcases hi.inv3.top_ok with h | h
+      · exact absurd h ht0
+      · exact h
+    obtain ⟨f0, e1, e2, e3, e4⟩ := x2 hpos (by rw [p1]; exact ht0) htn
+    refine ⟨f0, e1, ?_, e2, e3, e4⟩
+    obtain ⟨t, ht⟩ := drawDown_prefix cfg.gap s2.wantsCursor s2.cursor H (hs.drop (prologue s).2.top)
+      (prologue s).2.top ah2 cs0
+    rw [hcs1, ht]
+    cases cs0 with
+    | nil => exact absurd rfl hne
+    | cons a rest => simpa using e1
+  have hexact : ∀ f, cs2.head? = some f → f.idx = s2.top := by
+    intro f hf
+    obtain ⟨g, hg, e, _, _⟩ := hmaphead f hf
+    rw [e]
+    by_cases hnil : cs0 = []
+    · have es := st3 hnil
+      rw [hcs1, hnil] at hg
+      rw [drawDown_head _ _ _ _ _ _ _ g hg, es]
+    · obtain ⟨f0, _, h1, h2', _⟩ := hins hnil
+      rw [h1] at hg; cases hg; exact h2'
+  have hs2top63 : s2.top < 2 ^ 63 := by
+    rcases hi.inv3.top_ok with h | h <;> omega
+  by_cases hex : ∃ (k : Nat) (c : Child), cs2[k]? = some c ∧ Covers c
+  · -- the unique covering child determines top and offset
+    obtain ⟨k, c, hk, hcov⟩ := hex
+    have hr := retop_hit cs2 k c 0 s3.top s3.offset c2 hk hcov
+    have hklt : k < cs2.length := getElem?_lt hk
+    obtain ⟨f, rest, hcs⟩ : ∃ f rest, cs2 = f :: rest := by
+      cases cs2 with
+      | nil => simp at hklt
+      | cons f rest => exact ⟨f, rest, rfl⟩
+    have hfi : f.idx = s2.top := hexact f (by rw [hcs]; rfl)
+    have hci := (contig_get (Int.le_refl 0) rest f (by rw [← hcs]; exact c2) k c (by rw [← hcs]; exact hk)).1
+    have hch : hs[c.idx]? = some c.height := h2 c (List.mem_of_getElem? hk)
+    have hcn : c.idx < hs.length := getElem?_lt hch
+    have hua : uadd s3.top (0 + k) = c.idx := by
+      unfold uadd U; rw [t3]; omega
+    rw [hr, hua]
+    refine ⟨?_, ?_⟩
+    · show 0 ≤ - c.row; have := hcov.1; omega
+    · right
+      exact ⟨c.height, hch, (by show - c.row < (c.height : Int); have := hcov.2; omega)⟩
+  · -- nothing covers row 0: top and offset stay as the earlier phases left them
+    have hnone : ∀ c ∈ cs2, ¬ Covers c := by
+      intro c hc hcov
+      obtain ⟨m, hm⟩ := List.getElem?_of_mem hc
+      exact hex ⟨m, c, hm, hcov⟩
+    rw [retop_none cs2 0 (s3.top, s3.offset) hnone]
+    show 0 ≤ s3.offset ∧ (s3.offset = 0 ∨ ∃ ht, hs[s3.top]? = some ht ∧ s3.offset < (ht : Int))
+    rw [t3, o3]
+    by_cases hnil : cs0 = []
+    · have es := st3 hnil
+      rw [es, p1]
+      rcases prologue_off s with h | h
+      · rw [h]; exact ⟨Int.le_refl 0, Or.inl rfl⟩
+      · rw [h]; exact ⟨hi.off_nonneg, hi.off_in⟩
+    · obtain ⟨f0, _, h1, _, hrow, hoff⟩ := hins hnil
+      rcases hoff with h | ⟨hneg, hfr, hend⟩
+      · rw [h]; exact ⟨Int.le_refl 0, Or.inl rfl⟩
+      · -- impossible: the inserted head (or, after the cursor shift, a later child) covers row 0
+        exfalso
+        rcases sh3 with e | ⟨adj, m, c', hadj, e, hm, hend'⟩
+        · have h0 : cs2[0]? = some f0 := by rw [e, ← head?_getElem?]; exact h1
+          exact hex ⟨0, f0, h0, hrow, hend⟩
+        · have h0 : cs2[0]? = some { f0 with row := f0.row + adj } := by
+            rw [e, List.getElem?_map, ← head?_getElem?, h1]; rfl
+          obtain ⟨k, d, hk, hd⟩ := exists_cover m cs2 _ c' c2 h0 (by show f0.row + adj ≤ 0; omega) hm (by omega)
+          exact hex ⟨k, d, hk, hd⟩
+
+/-- Operations of a sane caller drawing into viewports of at least one row. -/
+def OpOk1 : Op → Prop
+  | .setCursor c => c < 2 ^ 63
+  | .draw W H => W ≠ 65535 ∧ H ≠ 65535 ∧ 1 ≤ H
+  | _ => True
+
+theorem OpOk1.toOpOk {op : Op} (h : OpOk1 op) : OpOk op := by
+  cases op <;> first | exact h | exact ⟨h.1, h.2.1⟩ | trivial
+
+theorem ensureScroll_inv4 (hs : List Nat) (s : St) (c : Nat) (hi : Inv4 hs s) (hc : c < 2 ^ 63) :
+    Inv4 hs (ensureScroll { s with cursor := c }) := by
+  refine ⟨ensureScroll_inv3 hs s c hi.inv3 hc, ?_, ?_⟩
+  · unfold ensureScroll; simp only []; split
+    · exact hi.off_nonneg
+    · exact Int.le_refl 0
+  · unfold ensureScroll; simp only []; split
+    · exact hi.off_in
+    · exact Or.inl rfl
+
+theorem init_inv4 (hs : List Nat) : Inv4 hs init := ⟨init_inv3 hs, Int.le_refl 0, Or.inl rfl⟩
+
+theorem step_inv4 (F : Facts) (hF : F.cursorGuard = true) (hS : F.insertStops = true)
+    (cfg : Cfg) (hgap : cfg.gap = 0)
+    (hs : List Nat) (hlen : hs.length < 2 ^ 63) (s : St) (op : Op) (hi : Inv4 hs s) (ho : OpOk1 op) :
+    ∃ s', step F cfg hs s op = .ok s' ∧ Inv4 hs s' := by
+  cases op with
+  | setCursor c => exact ⟨_, rfl, ensureScroll_inv4 hs s c hi ho⟩
+  | next =>
+    refine ⟨(nextItem hs s).1, rfl, ?_⟩
+    have hu : uadd s.cursor 1 = s.cursor + 1 := by have := hi.inv3.cur_ok; unfold uadd U; omega
+    unfold nextItem
+    rw [hu]
+    cases hb : builder hs (s.cursor + 1) with
+    | none => exact hi
+    | some h =>
+      have : s.cursor + 1 < hs.length := getElem?_lt hb
+      exact ensureScroll_inv4 hs s _ hi (by omega)
+  | prev =>
+    refine ⟨(prevItem hs s).1, rfl, ?_⟩
+    unfold prevItem
+    split
+    · exact hi
+    · rename_i h0
+      have hu : usub s.cursor 1 = s.cursor - 1 := usub_le (by omega) hi.inv3.cur_ok
+      rw [hu]
+      cases hb : builder hs (s.cursor - 1) with
+      | none => exact hi
+      | some h => exact ensureScroll_inv4 hs s _ hi (by have := hi.inv3.cur_ok; omega)
+  | wheelDown =>
+    exact ⟨_, rfl, ⟨hi.inv3.top_ok, hi.inv3.wants_ok, hi.inv3.cur_ok⟩, hi.off_nonneg, hi.off_in⟩
+  | wheelUp =>
+    refine ⟨(wheelUp s).1, rfl, ?_⟩
+    unfold wheelUp
+    split
+    · exact ⟨⟨hi.inv3.top_ok, hi.inv3.wants_ok, hi.inv3.cur_ok⟩, hi.off_nonneg, hi.off_in⟩
+    · exact hi
+  | pending k =>
+    exact ⟨_, rfl, ⟨hi.inv3.top_ok, hi.inv3.wants_ok, hi.inv3.cur_ok⟩, hi.off_nonneg, hi.off_in⟩
+  | draw W H =>
+    obtain ⟨s', cs, he, hi'⟩ := draw_inv4 F hF hS cfg hgap hs hlen s W H ho.1 ho.2.1 ho.2.2 hi
+    exact ⟨s', by simp [step, he], hi'⟩
+
+theorem run_inv4 (F : Facts) (hF : F.cursorGuard = true) (hS : F.insertStops = true)
+    (cfg : Cfg) (hgap : cfg.gap = 0)
+    (hs : List Nat) (hlen : hs.length < 2 ^ 63) : ∀ (ops : List Op) (s : St), Inv4 hs s →
+    (∀ op ∈ ops, OpOk1 op) → ∃ s', run F cfg hs s ops = .ok s' ∧ Inv4 hs s'
+  | [], s, hi, _ => ⟨s, rfl, hi⟩
+  | op :: ops, s, hi, ho => by
+    obtain ⟨s1, he, hi1⟩ := step_inv4 F hF hS cfg hgap hs hlen s op hi (ho op List.mem_cons_self)
+    obtain ⟨s2, he2, hi2⟩ := run_inv4 F hF hS cfg hgap hs hlen ops s1 hi1 (fun o h => ho o (List.mem_cons_of_mem _ h))
+    exact ⟨s2, by simp [run, he, he2], hi2⟩
+
+/-- A state satisfying `Inv4` with nothing pending is settled (when the list has items). -/
+theorem inv4_settled (hs : List Nat) (s : St) (hi : Inv4 hs s) (hp : s.pending = 0) (hn : 0 < hs.length) :
+    Settled hs s := by
+  refine ⟨hp, hi.off_nonneg, ?_⟩
+  rcases hi.off_in with h | ⟨ht, h1, h2⟩
+  · have : s.top < hs.length := by rcases hi.inv3.top_ok with h' | h' <;> omega
+    exact ⟨hs[s.top], List.getElem?_eq_getElem this, by rw [h]; omega⟩
+  · exact ⟨ht, h1, by omega⟩
 
 end VaxisModel.Lemmas.DynList
